@@ -12,18 +12,19 @@ from vlib.props import C08
 MODS = ['S4V.Props.StreamSpec']
 LEVEL_NOTE = ("Proved over the model of BlockReader::new / read_block / read_block_File{,Gz,Bz2,Lz4,Xz,Tar} / drop_block and the copy loop of "
               "decompress_to_ntf, with a decoder modelled as the decompressed bytes plus an ARBITRARY script of chunk sizes: for every block size >= 1, "
-              "every content (empty, one byte, exact multiples) and every chunking, gz and bz2 assemble exactly the plain file's blocks; xz (split in new, "
+              "every content (empty, one byte, exact multiples) and every chunking, gz, bz2 and lz4 assemble exactly the plain file's blocks; xz (split in new, "
               "incl. the never-returned extra empty block when bs divides the size) and tar (whole member on first miss) do so for any request order; a streamed "
               "reader asked in non-decreasing order answers what the plain reader answers; the look-back keeps only the highest block (depth 0); the temp file "
-              "of decompress_to_ntf holds exactly the decompressed bytes. lz4 is proved only for decoders that fill the buffer: read_block_FileLz4 calls read "
-              "once per block (known finding F13). Loop shapes/constants (GZ BUF_SZ, single lz4 read, xz `<=`, look-back target, Done-above-last) are "
+              "of decompress_to_ntf holds exactly the decompressed bytes. The lz4 proof unfolds the generated LZ4_FILL_LOOP (read_block_FileLz4 reads into the "
+              "unfilled rest of the block until it is full; repaired in 0949c9b4, was F22); the reader with ONE read per block is kept as a counter-model "
+              "(assemble_eq_lz4_single_read_false). Loop shapes/constants (GZ BUF_SZ, lz4 fill loop, xz `<=`, look-back target, Done-above-last) are "
               "extracted from the source on every run. Tied to the code by opening a real BlockReader over containers built by the harness (gz levels 0-9, "
               "header fields, sync-flush points; xz; lz4 block sizes/linked/flush points; tar ustar/gnu, member position) and by Python (bz2 levels, tar "
               "ustar/gnu/pax) and comparing every returned block (length + hash), filesz, blocks_highest and blocks_read count with the model, for in-order, "
               "step-back, repeated and gapped request orders. The real decoders' chunk sizes are not observed (that needs a patched reader): the theorems "
               "cover all chunkings and the correspondence checks the assembled result; for lz4 the chunk boundaries are the frame's block boundaries, which "
               "the harness knows because it built the frame. End to end: stdout(plain) == stdout(container) for text logs, wtmp, evtx and a journal.")
-ASSUME = ["the decoders (flate2, bzip2-rs, lz4_flex, lzma-rs, tar) deliver the right bytes in some chunking, or fail; bzip2-rs rejects some valid streams (known finding F14)",
+ASSUME = ["the decoders (flate2, bzip2-rs, lz4_flex, lzma-rs, tar) deliver the right bytes in some chunking, or fail; bzip2-rs rejects some valid streams (known finding F23)",
           "single-stream / single-member containers; gzip ISIZE is the true size (< 4 GiB)",
           "tar member lookup by path (process_path_tar) and file-type classification are covered by C15/C16, not here"]
 
@@ -43,7 +44,7 @@ def make_corpus(ctx):
     for n in sizes:
         for style in (0, 1):
             if style == 0:
-                # compressible pseudo-random text (bzip2-rs rejects incompressible multi-block streams: F14)
+                # compressible pseudo-random text (bzip2-rs rejects incompressible multi-block streams: F23)
                 data = bytes(97 + (rng.below(26) if rng.below(4) else 0) for _ in range(n)) if n < 5000 else \
                     (b''.join(b'%d %s\n' % (i, b'abcdefgh'[: 1 + i % 8] * (1 + i % 5)) for i in range(n // 8 + 2)))[:n]
             else:
@@ -174,11 +175,12 @@ def big_log(nbytes):
 
 
 def oracle_known_decoder_findings(ctx):
-    """detectors for F13 (lz4 single read) and F14 (bzip2-rs rejects a valid stream)"""
+    """detectors for the repaired lz4 single read (was F22, fixed in 0949c9b4: the signature is no longer a
+    known finding, so a regression is reported as a VIOLATION) and F23 (bzip2-rs rejects a valid stream)"""
     fails, ev = [], 0
     base = os.path.join(ctx.work, 'dec')
     os.makedirs(base, exist_ok=True)
-    # F13: an lz4 frame with more than one block, read at a block size that does not divide the frame's block size
+    # (was F22) an lz4 frame with more than one block, read at a block size that does not divide the frame's block size
     data = big_log(4 * 1024 * 1024 + 300000)
     plain = os.path.join(base, 'big.log')
     open(plain, 'wb').write(data)
@@ -193,7 +195,7 @@ def oracle_known_decoder_findings(ctx):
                           'detail': f'--blocksz {bs}: ' + first_diff(r1[1], r0[1]), 'args': e2e.BASE_ARGS + ['--blocksz', str(bs), 'big.log.lz4']})
     os.unlink(lz)
     os.unlink(plain)
-    # F14: incompressible data spanning more than one bzip2 block
+    # F23: incompressible data spanning more than one bzip2 block
     rng = e2e.Rng(ctx.seed + 77)
     rnd = bytes(rng.below(256) for _ in range(150000))
     p = os.path.join(base, 'rnd.log')
